@@ -9,10 +9,12 @@ For each: (0) once, with no patch: every demo passes; (1) the patch applies and 
 import json, os, shutil, subprocess, sys
 pkgs = sys.argv[1].split(",")
 dirs = [os.path.abspath(d) for d in sys.argv[2:]]
-wt = "/tmp/confirm-" + pkgs[0]
+wt = "/tmp/confirm-" + pkgs[0] + os.environ.get("CONFIRM_TAG", "")
 subprocess.run(["git", "-C", "/repo", "worktree", "remove", "--force", wt], capture_output=True)
 subprocess.run(["git", "-C", "/repo", "worktree", "add", "-q", "--detach", wt, "HEAD"], check=True)
 env = dict(os.environ, CARGO_NET_OFFLINE="true", RUST_BACKTRACE="0")
+if os.environ.get("CONFIRM_TARGET"):
+    env["CARGO_TARGET_DIR"] = os.environ["CONFIRM_TARGET"]   # shared between confirmations: registry crates are built once
 def run(cmd):
     r = subprocess.run(cmd, shell=True, cwd=wt, env=env, capture_output=True, text=True)
     return r.returncode, (r.stdout + r.stderr)[-1500:]
